@@ -784,4 +784,71 @@ def makeEventMatrixD (st : StoreTy) (data : Mat Rat) (nvar : Nat) (ms : List TMe
     let p := thr.getD i (0, .above)
     mark p.1 p.2 (row.getD i 0))
 
+/-! ## round 5: the float arithmetic *inside* the counting of `event_synchronization`
+
+`ex`, `ey` are float64 arrays (`dtype='float'`; without time stamps int64 indices, which the
+first float operation converts exactly).  Every arithmetic operation the function applies to
+times is modelled with its rounding `fl` (`rn53s` for IEEE double, `id` for exact arithmetic):
+
+* `ey = ey + lag`                                  → `fl (t + lag)`
+* `ex[:,1:-1].T - ey[:,1:-1]` (inside `dstxy2`)    → `fl (x - y)`; the factor `2 *` is exact
+* `np.diff(ex)`, `np.diff(ey)`                     → `fl (b - a)`
+* `np.minimum`, `2 * taumax`, `-tau2`, the comparisons and the counts (integers and halves far
+  below `2⁵³`) are exact.
+
+`esR id` is `es` (`esR_id`); `esR rn53s` is what the code computes on *arbitrary* doubles — the
+driver answers `esfl` with it and the harness compares it bit for bit on time stamps whose sums
+and differences are *not* representable. -/
+
+/-- `np.diff` with rounded subtraction -/
+def diffR (fl : Rat → Rat) (l : List Rat) : List Rat :=
+  List.zipWith (fun a b => fl (b - a)) l (l.drop 1)
+
+def minGapsR (fl : Rat → Rat) (l : List Rat) : List Rat :=
+  List.zipWith min ((diffR fl l).drop 1) (diffR fl l).dropLast
+
+def innerEventsR (fl : Rat → Rat) (l : List Rat) : List Ev := (inner l).zip (minGapsR fl l)
+
+/-- `dstxy2[i, j] = 2 * fl(ex[i] - ey[j])` -/
+def dst2R (fl : Rat → Rat) (p q : Ev) : Rat := 2 * fl (p.1 - q.1)
+
+def axyR (fl : Rat → Rat) (tm : Option Rat) (p q : Ev) : Bool :=
+  decide (0 < dst2R fl p q) && decide (dst2R fl p q ≤ tau2 tm p q)
+def ayxR (fl : Rat → Rat) (tm : Option Rat) (p q : Ev) : Bool :=
+  decide (dst2R fl p q < 0) && decide (-(tau2 tm p q) ≤ dst2R fl p q)
+def eqtR (fl : Rat → Rat) (p q : Ev) : Bool := decide (dst2R fl p q = 0)
+
+def dblxyR (fl : Rat → Rat) (tm : Option Rat) (xs ys : List Ev) : Nat :=
+  count2 (fun p q => axyR fl tm p q && (ys.any (fun q' => ayxR fl tm p q') ||
+                                          xs.any (fun p' => ayxR fl tm p' q))) xs ys
+def dblyxR (fl : Rat → Rat) (tm : Option Rat) (xs ys : List Ev) : Nat :=
+  count2 (fun p q => ayxR fl tm p q && (ys.any (fun q' => axyR fl tm p q') ||
+                                          xs.any (fun p' => axyR fl tm p' q))) xs ys
+
+def countXYR (fl : Rat → Rat) (tm : Option Rat) (xs ys : List Ev) : Rat :=
+  (count2 (axyR fl tm) xs ys : Rat) + (count2 (eqtR fl) xs ys : Rat) / 2
+    - (dblxyR fl tm xs ys : Rat) / 2
+def countYXR (fl : Rat → Rat) (tm : Option Rat) (xs ys : List Ev) : Rat :=
+  (count2 (ayxR fl tm) xs ys : Rat) + (count2 (eqtR fl) xs ys : Rat) / 2
+    - (dblyxR fl tm xs ys : Rat) / 2
+
+/-- `event_synchronization` with every operation on times rounded by `fl` -/
+def esR (fl : Rat → Rat) (ex ey : List Rat) (taumax : Option Rat) (lag : Rat) : ESRes :=
+  let ey := ey.map fun t => fl (t + lag)
+  let lx := ex.length
+  let ly := ey.length
+  if lx = 0 ∨ ly = 0 then .nan
+  else if lx = 1 ∨ lx = 2 ∨ ly = 1 ∨ ly = 2 then .zero
+  else
+    let xs := innerEventsR fl ex
+    let ys := innerEventsR fl ey
+    .val (countXYR fl taumax xs ys) (countYXR fl taumax xs ys) ((lx - 2) * (ly - 2))
+
+def esSeriesR (fl : Rat → Rat) (ts1 : List Rat) (bx : List Bool) (ts2 : List Rat)
+    (by_ : List Bool) (taumax : Option Rat) (lag : Rat) : ESRes :=
+  esR fl (select ts1 bx) (select ts2 by_) taumax lag
+
+/-- the call in IEEE double -/
+def esFl := esSeriesR rn53s
+
 end Pyunicorn.Events
